@@ -41,7 +41,12 @@ func instanceToProviderID(instance *autoscaling.Instance) string {
 }
 
 func providerIDToInstanceID(providerID string) string {
-	return strings.Split(providerID, "/")[4]
+	// expected format: aws:///<availability zone>/<instance id>
+	parts := strings.Split(providerID, "/")
+	if len(parts) < 5 {
+		return ""
+	}
+	return parts[4]
 }
 
 // CloudProvider providers an aws cloud provider implementation
@@ -137,6 +142,9 @@ func (c *CloudProvider) GetInstance(node *v1.Node) (cloudprovider.Instance, erro
 	var instance *Instance
 
 	id := providerIDToInstanceID(node.Spec.ProviderID)
+	if id == "" {
+		return nil, fmt.Errorf("unable to determine instance id from provider id %q of node %v", node.Spec.ProviderID, node.Name)
+	}
 
 	input := &ec2.DescribeInstancesInput{
 		InstanceIds: []*string{&id},
